@@ -52,6 +52,7 @@ struct Delivered
     uint64_t hw_id;
     ImageShape shape;
     uint64_t t_ns;
+    std::vector<uint8_t> pixels; // real simulated cameras only: the image bytes the camera wrote (mock cameras: PRF)
 };
 
 struct Event
@@ -87,13 +88,13 @@ struct Hub
     VhCase* c = nullptr;
     uint64_t salt = 0x5a17;
     std::vector<Instance*> instances;  // every device ever opened in this case
-    CamScript cam_script[2];
+    CamScript cam_script[4];           // 0,1: scripted mock cameras vcam0/1; 2,3: the shipped simulated cameras vreal0/1 behind a recording proxy
     StoreScript store_script[2];
-    int cam_runs[2] = { 0, 0 };        // starts seen so far per camera index (run numbers continue across instances)
+    int cam_runs[4] = { 0, 0, 0, 0 };  // starts seen so far per camera index (run numbers continue across instances)
     int store_runs[2] = { 0, 0 };
     bool shutdown_seen = false;
     int inits = 0;
-    bool refuse_open[4] = { false, false, false, false }; // one shot: the next open of device id (0,1 cameras; 2,3 storages) is refused
+    bool refuse_open[6] = { false, false, false, false, false, false }; // one shot: the next open of device id (0,1 cameras; 2,3 storages; 4,5 real cameras) is refused
     int opens_refused = 0;
     const char* lifecycle_prop = "C08";
     const char* context = ""; // appended to the discriminator of life-cycle failures (e.g. "@configure-while-running")
@@ -119,7 +120,8 @@ struct Instance
         Storage st;
     } u;
     bool is_cam = true;
-    int idx = 0; // vcam0/vcam1/vstore0/vstore1
+    int idx = 0; // vcam0/vcam1/vstore0/vstore1; cameras 2,3 = vreal0/vreal1
+    Camera* real = nullptr; // the shipped simulated camera this instance is a proxy for (vreal*)
     int serial = 0;
     bool closed = false;
     int closes = 0;
@@ -154,6 +156,15 @@ struct Driver* driver_init(void (*reporter)(int, const char*, int, const char*, 
 void check_released(const char* where);
 // every opened instance closed exactly once?  (after acquire_shutdown)
 void check_all_closed();
+// image bytes camera `cam` delivered as frame k of run `run`: PRF for the mock cameras, the recorded copy for real ones
+struct Expected
+{
+    int cam, run;
+    uint64_t k;
+    const std::vector<uint8_t>* rec;
+    uint8_t at(size_t j) const;
+};
+Expected expected_pixels(int cam, int run, uint64_t k);
 Instance* live_camera(int idx);
 Instance* live_storage(int idx);
 Instance* last_camera(int idx);
